@@ -246,24 +246,61 @@ type recWriter struct {
 	accept int
 	failed bool
 	out    []byte
+	temp   bool // the injected error says Temporary() / Timeout() (net.Error style)
+}
+
+// errInjectedTemp is the injected failure dressed as a temporary network error.
+type errInjectedTemp struct{}
+
+func (errInjectedTemp) Error() string        { return "injected write failure (temporary)" }
+func (errInjectedTemp) Temporary() bool      { return true }
+func (errInjectedTemp) Timeout() bool        { return true }
+func (errInjectedTemp) Is(target error) bool { return target == errInjected }
+
+func (w *recWriter) fault() error {
+	if w.temp {
+		return errInjectedTemp{}
+	}
+	return errInjected
+}
+
+// recByteWriter is the same writer for code that looks for io.ByteWriter / io.StringWriter: every WriteByte /
+// WriteString is one write (it can be the failing one).
+type recByteWriter struct{ *recWriter }
+
+func (w recByteWriter) WriteByte(b byte) error {
+	_, err := w.recWriter.Write([]byte{b})
+	return err
+}
+
+func (w recByteWriter) WriteString(s string) (int, error) { return w.recWriter.Write([]byte(s)) }
+
+// faultWriter returns the recording writer and the io.Writer to hand to the library. mode bit 0: also an
+// io.ByteWriter / io.StringWriter; bit 1: the error is a temporary one.
+func faultWriter(failAt, accept, mode int) (*recWriter, io.Writer) {
+	w := &recWriter{failAt: failAt, accept: accept, temp: mode&2 != 0}
+	if mode&1 != 0 {
+		return w, recByteWriter{w}
+	}
+	return w, w
 }
 
 func (w *recWriter) Write(p []byte) (int, error) {
 	if w.failed && w.accept > -2 {
-		return 0, errInjected
+		return 0, w.fault()
 	}
 	cp := append([]byte{}, p...)
 	w.calls = append(w.calls, cp)
 	if w.failAt > 0 && len(w.calls) == w.failAt {
 		if w.accept == -3 {
 			w.failed = true
-			return 0, errInjected
+			return 0, w.fault()
 		}
 		if w.accept < 0 {
 			// a writer that took everything and still reports an error (allowed by the io.Writer contract)
 			w.out = append(w.out, p...)
 			w.failed = true
-			return len(p), errInjected
+			return len(p), w.fault()
 		}
 		n := w.accept
 		if n > len(p) {
@@ -274,7 +311,7 @@ func (w *recWriter) Write(p []byte) (int, error) {
 		}
 		w.out = append(w.out, p[:n]...)
 		w.failed = true
-		return n, errInjected
+		return n, w.fault()
 	}
 	w.out = append(w.out, p...)
 	return len(p), nil
